@@ -21,12 +21,12 @@ Qed.
 
 (* the result of bump, when it succeeds *)
 Lemma bump_ok bumper size m hp b' m' :
-  m_pages m <= m_max m -> m_max m <= max_wasm_pages ->
+  m_pages m <= max_wasm_pages ->
   bump fixed bumper size m = inl (hp, b', m') ->
   hp = bumper /\ b' = bumper + size /\ bumper + size <= max_u32 /\ bumper + size <= msize m' /\
-  m_data m' = m_data m /\ m_max m' = m_max m /\ m_pages m <= m_pages m' <= m_max m.
+  m_data m' = m_data m /\ m_max m' = m_max m /\ m_pages m <= m_pages m' <= max_wasm_pages.
 Proof.
-  intros P1 P2. unfold bump. cbn [v_fix_wrap fixed andb].
+  intros P1. unfold bump. cbn [v_fix_wrap fixed andb].
   destruct (max_u32 <? bumper + size) eqn:W; [discriminate|]. apply N.ltb_ge in W.
   destruct (msize m <? bumper + size) eqn:G.
   - apply N.ltb_lt in G.
@@ -42,7 +42,7 @@ Proof.
     injection RP as <-. pose proof (pages_cover (bumper + size)) as PC.
     cbn [m_data m_max m_pages msize]. unfold msize. cbn [m_pages].
     split; [reflexivity|]. split; [rewrite N.mod_small; [reflexivity|unfold two32, max_u32 in *; lia]|].
-    split; [exact W|]. split; [|split; [reflexivity|split; [reflexivity|lia]]].
+    split; [exact W|]. split; [|split; [reflexivity|split; [reflexivity|unfold max_wasm_pages in *; lia]]].
     unfold page_size in *. nia.
   - apply N.ltb_ge in G. intros [= <- <- <-].
     split; [reflexivity|]. split; [rewrite N.mod_small; [reflexivity|unfold two32, max_u32 in *; lia]|].
